@@ -273,6 +273,7 @@ def measure_points(magpy, obj, items, kap):
 SUBS_DEFAULT = {"flux": (1, 3), "circ": (1, 7, 810)}   # flux: uniform k x k panels per piece; circ: grading level per piece
 
 
+LAMBDAS = (1e-9, 1e-6, 1e3)   # metres per lattice unit for the deterministic rescalings (besides 1 = identity)
 MAX_CALL_NODES = 150_000   # points per getB / getH call: bounds the memory of a worker (~0.3 GB incl. magpylib temporaries)
 
 
@@ -377,6 +378,8 @@ def run_job(job):
         scene = items[0][1]["scene"]
         if mode == "id":
             kap = Kappa()
+        elif mode.startswith("lam"):
+            kap = Kappa(float(mode[3:]))
         else:
             kap = kappa_for(scene, rng(f"{salt}:{mode}:{cjson(scene)}"))
         try:
@@ -385,6 +388,8 @@ def run_job(job):
             evs = [{"tid": tid, "kappa": "id" if kap.identity else "rnd", "inst": inst, "der": der, "meas": {"q": [0, 0], "fin": False}, "meas8": 0,
                     "qerr": 0, "qerr1": 0, "qppm": [0, 0], "sub": 0, "nodes": 0, "obs": {"q": [0, 0, 0], "fin": [False, False, False]}, "amp": {"big": False, "q": [0, 0]}, "raw": {"exception": repr(ex), "lam": kap.lam}} for tid, inst, der in items]
         for e in evs:
+            if mode.startswith("lam"):
+                e["kappa"] = mode
             e["prop"] = prop
             e["kappa_desc"] = kap.describe()
         out += evs
@@ -396,8 +401,11 @@ def make_jobs(prop, plan, tier, nproc=16, rnd_every=3, max_group_nodes=400_000):
     Every instance is measured under kappa = identity; every `rnd_every`-th scene group additionally under a random kappa."""
     cost_of = {"CylinderSegment": 220.0, "TriangularMesh": 20.0, "Tetrahedron": 11.0, "Cuboid": 8.0, "Polyline": 5.0, "Cylinder": 3.5}
     groups = {}
+    base_pose = set()
     for tid, p in enumerate(plan):
         groups.setdefault(cjson(p["inst"]["scene"]), []).append((tid, p["inst"], p["der"]))
+        if p.get("hist", {}).get("nmv", 0) == 0:
+            base_pose.add(tid)
     units = []
     for gi, (key, items) in enumerate(sorted(groups.items())):
         scene = items[0][1]["scene"]
@@ -420,6 +428,12 @@ def make_jobs(prop, plan, tier, nproc=16, rnd_every=3, max_group_nodes=400_000):
             if (gi + ci) % rnd_every == 0:
                 off = 1_000_000
                 units.append((est, ("rnd1", [(t + off, i, d) for t, i, d in ch])))
+            # current-carrying scenes: deterministic small and large length units (pure rescaling of the lattice), base poses only
+            if any(s["cls"] in ("Polyline", "Circle") for s in scene):
+                sel = [it for it in ch if it[0] in base_pose and it[1]["law"] != "point"]
+                for k, lam in enumerate(LAMBDAS):
+                    if sel:
+                        units.append((est * len(sel) / len(ch), (f"lam{lam:g}", [(t + (k + 2) * 1_000_000, i, d) for t, i, d in sel])))
     units.sort(key=lambda u: -u[0])
     if nproc == 1:
         return [(prop, f"{prop}:{tier}", [u for _, u in units])]
